@@ -30,7 +30,7 @@ def _sched(nf, pmax, tiers, timeout, which, qa, qb):
       H("scheduler_next" + tag, F, "h_next", ["fibre_scheduler_next", "update_current_state", "handle_timerq", "get_next_task", "get_next_wakeup", "make_runnable", "fibre_self", "fibre_run"],
         defs=d, replace_calls=STUB, restrict_fp=FP, unwind=u, unwindset=us, timeout=timeout, tiers=tiers, solvers=("cadical", "minisat"), bounded=b),
       H("handle_atomic_runq" + tag, F, "h_drain", ["handle_atomic_runq", "make_runnable", "messageq_receive", "messageq_release"],
-        defs=d, unwind=u, unwindset=us, timeout=timeout, tiers=tiers, solvers=("cadical",), bounded=b),
+        defs=d, replace_calls=["fibre_run:fibre_run_contract"], unwind=u, unwindset=us, timeout=timeout, tiers=tiers, solvers=("cadical",), bounded=b),
       H("fibre_run" + tag, F, "h_run", ["fibre_run", "make_runnable"], defs=d, replace_calls=STUB, unwind=u, unwindset=us, timeout=timeout, tiers=tiers, solvers=("cadical",), bounded=b),
       H("fibre_kill" + tag, F, "h_kill", ["fibre_kill"], defs=d, replace_calls=STUB, unwind=u, unwindset=us, timeout=timeout, tiers=tiers, solvers=("cadical",), bounded=b),
       H("fibre_timeout" + tag, F, "h_timeout", ["fibre_timeout", "duetime_cmp", "list_insert_sorted"], defs=d, unwind=u, unwindset=us, timeout=timeout, tiers=tiers, solvers=("cadical",), bounded=b),
